@@ -6220,6 +6220,162 @@ def jobs_numpy_type(tier):
     return [(h_numpy_type, a, 900) for a in q]
 
 
+# ------------------------------------------------------------------------------------------------ C14: ArrayBuilder.append(array, at) on the indexed builders
+IXB = 'src/libawkward/builder/IndexedBuilder.cpp'
+INDEXED_BUILDERS = {   # kind -> (builder class, array class, mangled index type)
+    'I32': ('17IndexedI32Builder', 'IndexedArray32', 'i'), 'IU32': ('18IndexedIU32Builder', 'IndexedArrayU32', 'j'), 'I64': ('17IndexedI64Builder', 'IndexedArray64', 'l'),
+}
+
+
+def _indexed_builder(nc, kind, nindex, n, hasnull):
+    """an Indexed*Builder holding n entries (symbolic) that refers to a real indexed array of nindex entries over the opaque content"""
+    from .cpp01 import struct_of
+    from .mharness import module_of as _mo
+    bcls, acls, T = INDEXED_BUILDERS[kind]
+    for f in (IXB, 'src/libawkward/builder/GrowableBuffer.cpp', 'src/libawkward/builder/ArrayBuilderOptions.cpp'):
+        nc.m.eng.mods.append(_mo(f))
+    mod = _mo(IXB)
+    base = [k_ for k_ in mod.types.named if k_.startswith('%"class.awkward::IndexedBuilder.base')][0]
+    fo, sz, al, fields = mod.types.struct_layout(base)          # Builder, options_, index_, array_, hasnull_ (the same offsets in every instantiation)
+    if acls == 'IndexedArray64':
+        arr, idx = build_option64(nc, (False,) * nindex, name='thearray', option=False)
+    else:
+        arr, idx = build_indexed(nc, acls, (False,) * nindex, nc.content0, nc.lencontent, 'thearray')
+    res = nc.m.bv('reserved')
+    nc.m.assume(res >= n + 1, res <= 2 ** 20)
+    from .llbmc import State
+    vt = nc.m.eng.global_ptr(State({}, nc.m.mem, z3.BoolVal(True)), '@_ZTVN7awkward%sE' % bcls, mod)
+    buf = nc.m.array('bindex', ('i', 64), res)
+    nc.m.record('b_ctrl', {0: (NULL, 8), 8: (z3.BitVecVal(1, 32), 4), 12: (z3.BitVecVal(1, 32), 4)})
+    cells = {0: (Ptr(vt.obj, 16), 8), 8: (Ptr('builder', 0), 8), 16: (Ptr('b_ctrl', 0), 8), fo[1]: (BV(8), 8), fo[1] + 8: (z3.FPVal(1.5, z3.Float64()), 8),
+             fo[2]: (BV(8), 8), fo[2] + 8: (z3.FPVal(1.5, z3.Float64()), 8), fo[2] + 16: (buf, 8), fo[2] + 24: (NULL, 8), fo[2] + 32: (BV(n), 8), fo[2] + 40: (res, 8),
+             fo[3]: (arr, 8), fo[3] + 8: (NULL, 8), fo[4]: (BV(1 if hasnull else 0, 8), 1)}
+    this = nc.m.record('builder', cells)
+    return this, arr, idx, fo, z3.Array('bindex', z3.BitVecSort(64), z3.BitVecSort(64))
+
+
+@guard
+def h_indexed_builder_append(kind, nindex, n):
+    """Indexed{I32,IU32,I64}Builder::append(array, at) with the builder's own array: the builder's index grows by one entry - the position in the
+    array's *content* that entry `at` of the array shows (its index entry, read in its own width and signedness) -, earlier entries are
+    untouched; so the snapshot (an indexed array over that content) shows array[at]"""
+    bcls, acls, T = INDEXED_BUILDERS[kind]
+    nc = NodeCtx(['IA', 'IDX', 'CNT', 'UTL', 'KD', 'IDS'], [], unwind=max(12, n + nindex + 10))
+    this, arr, idx, fo, b0 = _indexed_builder(nc, kind, nindex, n, False)
+    at = nc.m.bv('at')
+    nc.m.assume(at >= 0, at < nindex)
+    arrp = nc.m.record('arrayptr', {0: (arr, 8), 8: (NULL, 8)}, const=True)
+    nc.m.record('ret', {})
+    cands = [f for mod_ in nc.m.eng.mods for f in mod_.func_src if f.startswith('_ZN7awkward%s6appendERKSt10shared_ptrINS_7ContentEEl' % bcls)]
+    out = nc.m.call(cands[0], [Ptr('ret', 0), this, arrp, at])
+    ob = out.mem.o['builder']
+    newlen = ob.cells[fo[2] + 32][0]
+    bp = ob.cells[fo[2] + 16][0]
+    j = z3.BitVec('j!pos', 64)
+    want = idx[0]
+    for k in range(1, nindex):
+        want = z3.If(at == k, idx[k], want)
+    obls = [('append does not raise', out.raised), ('the index grows by one entry', newlen != n + 1)]
+    for g, q in nodeh.ptr_cases(bp):
+        if q.obj is None:
+            obls.append(('the index buffer is still there', g)); continue
+        a1 = out.mem.o[q.obj].arr
+        off = q.off if not isinstance(q.off, int) else BV(q.off)
+        obls.append(('the new entry is the content position that entry `at` of the array shows', z3.And(g, z3.Select(a1, off + n) != want)))
+        obls.append(('earlier entries are untouched', z3.And(g, j >= 0, j < n, z3.Select(a1, off + j) != z3.Select(b0, j))))
+
+    def replay(model, ent):
+        import subprocess, os
+        iv = [model.eval(x, model_completion=True).as_signed_long() for x in idx]
+        A = model.eval(at, model_completion=True).as_signed_long()
+        lc = max([model.eval(nc.lencontent, model_completion=True).as_signed_long(), 1] + [v + 1 for v in iv])
+        if lc > 50:
+            return False, 'content too long to replay', {}
+        try:
+            exe = fullnative.link_driver(INDEXED_BUILDER_DRIVER, 'ixbuilder')
+        except Exception as e:      # noqa
+            return False, 'replay driver did not build: %s' % str(e)[-400:], {}
+        r = subprocess.run([exe, kind, str(lc), str(A)] + [str(v) for v in iv], capture_output=True, text=True, timeout=30, env=dict(os.environ, ASAN_OPTIONS='detect_leaks=0'), errors='replace')
+        payload = dict(kind=kind, index=iv, at=A, native=r.stdout.strip())
+        if r.returncode != 0:
+            return True, '%s of index %s over [100, 101, ...]: null, then append(array, %d) twice: %s' % (acls, iv, A, r.stdout.strip() or r.stderr[-200:]), payload
+        return False, 'native builder agrees (%s)' % r.stdout.strip(), payload
+    return mdischarge(nc.m, 'Indexed%sBuilder::append(own array of %d entries, at) onto %d entries' % (kind, nindex, n), obls, [], replay=replay, prefer=[nc.lencontent <= 8],
+                      extra=dict(bounds='array of %d index entries (symbolic, in its own width) over an opaque content, builder holding %d entries, at symbolic' % (nindex, n)))
+
+
+INDEXED_BUILDER_DRIVER = r"""
+#include <cstdio>
+#include <cstdlib>
+#include <cstring>
+#include <string>
+#include <memory>
+#include "awkward/Index.h"
+#include "awkward/Identities.h"
+#include "awkward/array/NumpyArray.h"
+#include "awkward/array/IndexedArray.h"
+#include "awkward/builder/ArrayBuilder.h"
+#include "awkward/builder/ArrayBuilderOptions.h"
+using namespace awkward;
+int main(int argc, char** argv) {
+  // argv: kind (I32 | IU32 | I64), content length, at, index entries...   content = [100, 101, ...]
+  std::string kind(argv[1]); int64_t lc = atoll(argv[2]); int64_t at = atoll(argv[3]); int n = argc - 4;
+  Index64 c(lc); for (int64_t i = 0; i < lc; i++) c.setitem_at_nowrap(i, 100 + i);
+  ContentPtr content = std::make_shared<NumpyArray>(c);
+  ContentPtr array;
+  if (kind == "I32") { Index32 ix(n); for (int i = 0; i < n; i++) ix.setitem_at_nowrap(i, (int32_t)atoll(argv[4 + i])); array = std::make_shared<IndexedArray32>(Identities::none(), util::Parameters(), ix, content); }
+  else if (kind == "IU32") { IndexU32 ix(n); for (int i = 0; i < n; i++) ix.setitem_at_nowrap(i, (uint32_t)atoll(argv[4 + i])); array = std::make_shared<IndexedArrayU32>(Identities::none(), util::Parameters(), ix, content); }
+  else { Index64 ix(n); for (int i = 0; i < n; i++) ix.setitem_at_nowrap(i, atoll(argv[4 + i])); array = std::make_shared<IndexedArray64>(Identities::none(), util::Parameters(), ix, content); }
+  long long want = 100 + atoll(argv[4 + at]);
+  ArrayBuilder b(ArrayBuilderOptions(8, 1.5));
+  b.null(); b.append(array, at); b.append(array, at);
+  std::string got = b.snapshot().get()->tojson(false, 10);
+  std::string exp = std::string("[null,") + std::to_string(want) + "," + std::to_string(want) + "]";
+  ArrayBuilder b2(ArrayBuilderOptions(8, 1.5));
+  b2.append(array, at);
+  std::string got2 = b2.snapshot().get()->tojson(false, 10);
+  std::string exp2 = std::string("[") + std::to_string(want) + "]";
+  printf("with a null: %s (expected %s); without: %s (expected %s)\\n", got.c_str(), exp.c_str(), got2.c_str(), exp2.c_str());
+  return (got == exp && got2 == exp2) ? 0 : 1;
+}
+"""
+
+
+@guard
+def h_indexed_builder_snapshot(kind, n, hasnull):
+    """Indexed{I32,IU32,I64}Builder::snapshot: an IndexedArray64 - an IndexedOptionArray64 once a null was appended - whose index is the builder's
+    (its n entries) over the *content* of the array the entries were taken from (the entries are content positions)"""
+    bcls, acls, T = INDEXED_BUILDERS[kind]
+    nc = NodeCtx(['IA', 'IDX', 'CNT', 'UTL', 'KD', 'IDS'], [], unwind=max(12, n + 12))
+    this, arr, idx, fo, b0 = _indexed_builder(nc, kind, 2, n, hasnull)
+    for i in range(n):
+        nc.m.assume(z3.Select(b0, BV(i)) >= (-1 if hasnull else 0), z3.Select(b0, BV(i)) < nc.lencontent)
+    nc.m.record('ret', {})
+    out = nc.m.call('_ZNK7awkward%s8snapshotEv' % bcls, [Ptr('ret', 0), this])
+    obls = [('snapshot does not raise', out.raised)]
+    for g, res in nodeh.decode_cases(nc, out.mem, nc.m.cell('ret', 0)):
+        g = z3.And(g, z3.Not(out.raised))
+        if res is None:
+            obls.append(('a snapshot is returned', g)); continue
+        want_cls = 'indexedoption' if hasnull else 'indexed'
+        if res['cls'] not in (want_cls, 'option' if hasnull else 'indexed'):
+            obls.append(('the snapshot is an %s array (%s)' % ('option-type indexed' if hasnull else 'indexed', res['cls']), g)); continue
+        obls += [(nm, z3.And(g, c)) for nm, c in nodeh.compare_value(res, [_entry(z3.Select(b0, BV(i)), hasnull) for i in range(n)])]
+    return mdischarge(nc.m, 'Indexed%sBuilder::snapshot %d entries%s' % (kind, n, ', a null was appended' if hasnull else ''), obls, [], replay=None, prefer=[nc.lencontent <= 8],
+                      extra=dict(bounds='%d index entries symbolic (content positions, -1 = null when a null was appended); replay: the append harness runs the same snapshot natively' % n))
+
+
+def _entry(v, hasnull):
+    return Elem(v, v < 0) if hasnull else Elem(v)
+
+
+def jobs_indexed_builder(tier):
+    js = [(h_indexed_builder_append, (k, 2, 1), 900) for k in INDEXED_BUILDERS] + [(h_indexed_builder_snapshot, (k, 2, hn), 900) for k in INDEXED_BUILDERS for hn in (False, True)]
+    if tier != 'quick':
+        js += [(h_indexed_builder_append, (k, 3, 0), 900) for k in INDEXED_BUILDERS] + [(h_indexed_builder_snapshot, (k, 0, False), 900) for k in INDEXED_BUILDERS]
+    return js
+
+
 def jobs_record_keys(tier):
     q = [(('a', 'b', 'c'), 3, 'b'), (('x', 'y'), 2, 'z'), (None, 3, '2'), (None, 2, '2'), (('x', 'y'), 2, '1')]
     if tier != 'quick':
